@@ -695,4 +695,5 @@ def run(R):
                           "allocations are parameters (status + the message they leave), assumed to obey the property themselves (Part.wf)",
                           "monitor-only (implementation-only, no model twin): x86_64/ia32/ppc64/s390x OS set-up, conversions after the set-up, the "
                           "one-story rule on numbered callback failures (harness/s_os.c C16 mode), allocation-failure runs of the flow family, "
-                          "the API scenarios of harness/s_fmt.c and s_hist.c"] + c16hist.ASSUMPTIONS
+                          "the API scenarios of harness/s_fmt.c and s_hist.c (incl. the pages whose compressed data does not decompress: LKCD "
+                          "run-length / gzip, diskdump zlib; expectation from the independent run-length decoder of tools/props/c03.py)"] + c16hist.ASSUMPTIONS
